@@ -207,11 +207,17 @@ class Enumerator(object):
                 if p.done:
                     out.append(p)
                     continue
-                tp = p.fork()
-                tp.conds = canon.simplify(tp.conds + canon.cond(p.value, True))
-                out.extend(self.run(node['then'], tp))
+                known = p.value[1] if (p.value is not None and p.value[0] == 'lit' and p.value[1] in ('true', 'false')) else None
+                if known != 'false':
+                    tp = p.fork()
+                    if known is None:
+                        tp.conds = canon.simplify(tp.conds + canon.cond(p.value, True))
+                    out.extend(self.run(node['then'], tp))
+                if known == 'true':
+                    continue  # the condition was decided by the path itself (e.g. `matches!`): no else on this path
                 ep = p.fork()
-                ep.conds = canon.simplify(ep.conds + canon.cond(p.value, False))
+                if known is None:
+                    ep.conds = canon.simplify(ep.conds + canon.cond(p.value, False))
                 if node.get('else') is not None:
                     out.extend(self.run(node['else'], ep))
                 else:
